@@ -38,6 +38,22 @@ CHECKS = {
                   'no path ends without a tree and without an error; keywords/reserved words never lex as IDENT and all other identifier-shaped words do (unbounded, z3 regex); '
                   'every non-User parse error becomes an Error diagnostic.',
              note='Trusted: driver model (validated per run), reference grammar transcription, regex crate executing the generated patterns as written; whole-token lexing only.'),
+ 'C04': dict(engine='A (generated action wrappers -> z3 integers) + K (Range::new) + M (from_parse_error) + native layout sweep',
+             technique='symbolic evaluation of the generated parser actions; z3 over unbounded integer token spans',
+             design='4/C04', category='model_checking',
+             text='For each of the ~60 tree-building productions of the current grammar, every Range::new / Type::* offset is an integer term over symbolic token spans; z3 decides for ALL layouts: '
+                  'start <= end, every offset is a token boundary, name range = span of the name, full range from the first token (or between annotations and it) to the last token or `;`, '
+                  'doc-scan start = first token, oneway range = keyword, transact-code diagnostic = the number; Kani shows Range::new passes offsets through; MIR shows syntax diagnostics take the '
+                  'token span / EOF location. Counterexample layouts are confirmed by a native sweep of templates x 8 gap variants (CRLF, Unicode spaces, multi-byte comments).',
+             note='Trusted: lalrpop pushes (first token start, last token end) for a symbol and (lookahead, lookahead) for an empty one; line/column vs offset (line-col crate) is only covered natively; '
+                  'ranges of HashMap-produced diagnostics are outside.'),
+ 'C19': dict(engine='M (derive-generated serialize/visit_map/visit_str MIR -> z3) + native RON round trip',
+             technique='attribute-consistency obligations read off the real derive MIR, z3 per skipped field',
+             design='4/C19', category='model_checking',
+             text='For all 22 derive-generated writers and their readers: every conditionally skipped field is defaulted by the reader, z3 shows skip_predicate(v) => v = reader default for every '
+                  'value (crate predicates/defaults translated from MIR), written field and variant names are accepted by the reader, no duplicate names. A project exercising every optional field '
+                  'in both states is round-tripped natively through RON; a violation is reported only if a file does not survive.',
+             note='Trusted: serde\'s impls for primitive/std types and the generated handling of present fields; skipped = absent for the reader (self-describing formats).'),
 }
 
 NA = {
@@ -62,8 +78,9 @@ def main():
                'baseline_off_cmd': 'cd /repo && cargo test --workspace --no-fail-fast --offline',
                'source_commits': list(reversed(hooks)), 'add_only': True},
      'engines': [
-       {'name': 'M', 'path': 'lib/mir.py', 'serves_properties': ['C11', 'C17', 'C19', 'C20'], 'kind_free_text': 'nightly MIR of the current tree -> path-enumerating symbolic interpreter -> z3 (strings/integers)'},
+       {'name': 'M', 'path': 'lib/mir.py', 'serves_properties': ['C01', 'C03', 'C04', 'C07', 'C10', 'C11', 'C17', 'C19', 'C20'], 'kind_free_text': 'nightly MIR of the current tree -> path-enumerating symbolic interpreter -> z3 (strings/integers)'},
        {'name': 'P', 'path': 'lib/tables.py lib/lrdriver.py lib/pengine.py lib/refgrammar.py', 'serves_properties': ['C03', 'C14'], 'kind_free_text': 'LALR tables extracted from the generated parser of the current tree; model of the lalrpop_util driver incl. error recovery; path-forking symbolic execution; z3 CYK of a reference grammar'},
+       {'name': 'A', 'path': 'lib/acteval.py', 'serves_properties': ['C04', 'C01'], 'kind_free_text': 'symbolic evaluator of the machine-generated __actionN wrappers: Range::new arguments as integer terms over token spans'},
        {'name': 'L', 'path': 'lib/lexl.py', 'serves_properties': ['C03'], 'kind_free_text': 'generated lexer pattern table -> z3 regular expressions'},
        {'name': 'replay', 'path': 'replay/', 'serves_properties': sorted(CHECKS), 'kind_free_text': 'native binary built against /repo (verif-hooks) that replays solver counterexamples through the public API'},
      ],
